@@ -297,6 +297,14 @@ func RunNames(c *core.Ctx) {
 		}
 		cs := types.ExprString(is.Cond)
 		okCond := cs == "done" || strings.HasSuffix(cs, ".Desc.IsMapEntry()")
+		// the processed set as a map to bool: `if processed[message.Desc.FullName()] { return }`
+		if ix, isIdx := ast.Unparen(is.Cond).(*ast.IndexExpr); isIdx && is.Init == nil {
+			if mt, isMap := p.TypesInfo.TypeOf(ix.X).Underlying().(*types.Map); isMap {
+				if bt, isB := mt.Elem().Underlying().(*types.Basic); isB && bt.Kind() == types.Bool && strings.HasSuffix(types.ExprString(ix.Index), ".Desc.FullName()") {
+					okCond = true
+				}
+			}
+		}
 		if is.Init != nil {
 			if as, ok := is.Init.(*ast.AssignStmt); ok && len(as.Rhs) == 1 {
 				if _, isIdx := as.Rhs[0].(*ast.IndexExpr); isIdx && len(as.Lhs) == 2 && types.ExprString(as.Lhs[1]) == cs {
@@ -457,6 +465,7 @@ func RunDetPure(c *core.Ctx) {
 		}
 		if rel == "cmd/protoc-gen-go-pulsar" {
 			runArgsFlow(c, p, rel, src)
+			runCarriedState(c, p, rel, src)
 		}
 		// a pointer (channel, function) handed to a formatting call is printed as an address, which differs from run to
 		// run: fmt.Sprint*/Errorf/Fprint* and the emitting P(...) must not receive one, unless its type says how it prints
@@ -917,11 +926,23 @@ func RunDetPure(c *core.Ctx) {
 						if br, ok := is.Body.List[0].(*ast.BranchStmt); !ok || br.Tok != token.CONTINUE || br.Label != nil {
 							return true
 						}
-						if ue, ok := ast.Unparen(is.Cond).(*ast.UnaryExpr); ok && ue.Op == token.NOT {
-							if sel, ok := ast.Unparen(ue.X).(*ast.SelectorExpr); ok {
-								allowed[sel.Sel] = true
+						// … also as one disjunct of the condition (`if !file.Generate || <another reason to skip> { continue }`): a
+						// file that is not generated is still left out as a whole
+						var disj func(e ast.Expr)
+						disj = func(e ast.Expr) {
+							e = ast.Unparen(e)
+							if be, ok := e.(*ast.BinaryExpr); ok && be.Op == token.LOR {
+								disj(be.X)
+								disj(be.Y)
+								return
+							}
+							if ue, ok := e.(*ast.UnaryExpr); ok && ue.Op == token.NOT {
+								if sel, ok := ast.Unparen(ue.X).(*ast.SelectorExpr); ok {
+									allowed[sel.Sel] = true
+								}
 							}
 						}
+						disj(is.Cond)
 						return true
 					})
 				})
@@ -1229,19 +1250,60 @@ func RunFlow(c *core.Ctx) {
 			con := fmt.Sprintf("cmd.%s loop over %s #%d", fnName(fd), types.ExprString(rs.X), nLoops)
 			okGuard := false
 			if v != nil && len(rs.Body.List) > 0 {
-				if is, ok := rs.Body.List[0].(*ast.IfStmt); ok && is.Else == nil {
-					if ue, ok := is.Cond.(*ast.UnaryExpr); ok && ue.Op == token.NOT {
-						if s2, ok := ue.X.(*ast.SelectorExpr); ok && s2.Sel.Name == "Generate" {
-							if id, ok := s2.X.(*ast.Ident); ok && cmdp.TypesInfo.ObjectOf(id) == cmdp.TypesInfo.ObjectOf(v) {
-								if len(is.Body.List) == 1 {
-									if br, ok := is.Body.List[0].(*ast.BranchStmt); ok && br.Tok == token.CONTINUE {
-										okGuard = true
-									}
+				if is, ok := rs.Body.List[0].(*ast.IfStmt); ok && is.Else == nil && is.Init == nil {
+					// `!file.Generate`, alone or as one disjunct among other (call-only-on-descriptors) reasons to skip the file
+					notGen := false
+					var disj func(e ast.Expr)
+					disj = func(e ast.Expr) {
+						e = ast.Unparen(e)
+						if be, ok := e.(*ast.BinaryExpr); ok && be.Op == token.LOR {
+							disj(be.X)
+							disj(be.Y)
+							return
+						}
+						if ue, ok := e.(*ast.UnaryExpr); ok && ue.Op == token.NOT {
+							if s2, ok := ast.Unparen(ue.X).(*ast.SelectorExpr); ok && s2.Sel.Name == "Generate" {
+								if id, ok := s2.X.(*ast.Ident); ok && cmdp.TypesInfo.ObjectOf(id) == cmdp.TypesInfo.ObjectOf(v) {
+									notGen = true
 								}
 							}
 						}
 					}
+					disj(is.Cond)
+					if notGen && len(is.Body.List) == 1 {
+						if br, ok := is.Body.List[0].(*ast.BranchStmt); ok && br.Tok == token.CONTINUE && br.Label == nil {
+							okGuard = true
+						}
+					}
 				}
+			}
+			// every other reason to skip a file in this loop is a property of the file itself (its descriptor), not of the
+			// request's parameters or of what was processed before
+			if v != nil {
+				var others []string
+				for _, st := range rs.Body.List {
+					is, ok := st.(*ast.IfStmt)
+					if !ok || len(is.Body.List) == 0 {
+						continue
+					}
+					br, isBr := is.Body.List[len(is.Body.List)-1].(*ast.BranchStmt)
+					_, isRet := is.Body.List[len(is.Body.List)-1].(*ast.ReturnStmt)
+					if !(isBr && (br.Tok == token.CONTINUE || br.Tok == token.BREAK)) && !isRet {
+						continue
+					}
+					ast.Inspect(is.Cond, func(q ast.Node) bool {
+						id, ok := q.(*ast.Ident)
+						if !ok {
+							return true
+						}
+						if o, ok := cmdp.TypesInfo.Uses[id].(*types.Var); ok && !o.IsField() && o != cmdp.TypesInfo.ObjectOf(v) {
+							others = append(others, fmt.Sprintf("%s (line %d)", id.Name, cmdp.Fset.Position(id.Pos()).Line))
+						}
+						return true
+					})
+				}
+				c.Check(len(others) == 0, "T.flow", con+" skips", "files are skipped for reasons of their own only (descriptor queries on the loop variable)",
+					"a file is skipped depending on something other than the file itself: "+strings.Join(others, ", ")+" — the pass then applies to some requests and not to others", c.PosStr(cmdp.Fset, rs.Pos()), src)
 			}
 			c.Check(okGuard, "T.flow", con, "files not requested are skipped before anything is generated or renamed", "loop over all files does not start with `if !file.Generate { continue }`: files that were not requested produce output (or are rewritten)", c.PosStr(cmdp.Fset, rs.Pos()), src)
 			return true
@@ -1490,4 +1552,126 @@ func specialCaseSwitch(fd *ast.FuncDecl, sw *ast.SwitchStmt) bool {
 		return true
 	})
 	return found
+}
+
+// runCarriedState (T.pure, driver): rewriteMessageField is applied to every message of every generated file with
+// state handed from call to call. The only state that may travel that way is the set of messages already processed:
+// a map parameter that is indexed by the message's own full name (to return early, and to mark the message) and passed
+// on to the recursive calls. Anything else that survives from one message — hence from one file — to the next (a set of
+// names taken so far, a counter) makes what is generated for a file depend on which files came before it.
+func runCarriedState(c *core.Ctx, p *packages.Package, rel, src string) {
+	info := p.TypesInfo
+	var rw *ast.FuncDecl
+	eachFunc(p, func(fd *ast.FuncDecl) {
+		if fd.Name.Name == "rewriteMessageField" && fd.Recv == nil {
+			rw = fd
+		}
+	})
+	if rw == nil || rw.Body == nil {
+		return // T.names reports the lost anchor
+	}
+	var params []types.Object
+	for _, fl := range rw.Type.Params.List {
+		for _, n := range fl.Names {
+			params = append(params, info.Defs[n])
+		}
+	}
+	if len(params) == 0 {
+		return
+	}
+	msg := params[0]
+	// locals bound once to message.Desc.FullName()
+	isFullName := func(x ast.Expr) bool {
+		x = ast.Unparen(x)
+		if call, ok := x.(*ast.CallExpr); ok && len(call.Args) == 0 {
+			if sel, ok := call.Fun.(*ast.SelectorExpr); ok && sel.Sel.Name == "FullName" {
+				if d, ok := ast.Unparen(sel.X).(*ast.SelectorExpr); ok && d.Sel.Name == "Desc" {
+					if id, ok := ast.Unparen(d.X).(*ast.Ident); ok && info.ObjectOf(id) == msg {
+						return true
+					}
+				}
+			}
+		}
+		return false
+	}
+	nameLocals := map[types.Object]bool{}
+	assigns := map[types.Object]int{}
+	ast.Inspect(rw.Body, func(n ast.Node) bool {
+		if as, ok := n.(*ast.AssignStmt); ok {
+			for i, l := range as.Lhs {
+				if id, ok := l.(*ast.Ident); ok {
+					o := info.ObjectOf(id)
+					assigns[o]++
+					if len(as.Lhs) == len(as.Rhs) && isFullName(as.Rhs[i]) {
+						nameLocals[o] = true
+					}
+				}
+			}
+		}
+		return true
+	})
+	keyOK := func(x ast.Expr) bool {
+		if isFullName(x) {
+			return true
+		}
+		id, ok := ast.Unparen(x).(*ast.Ident)
+		return ok && nameLocals[info.ObjectOf(id)] && assigns[info.ObjectOf(id)] == 1
+	}
+	parents := map[ast.Node]ast.Node{}
+	var stack []ast.Node
+	ast.Inspect(rw.Body, func(n ast.Node) bool {
+		if n == nil {
+			stack = stack[:len(stack)-1]
+			return true
+		}
+		if len(stack) > 0 {
+			parents[n] = stack[len(stack)-1]
+		}
+		stack = append(stack, n)
+		return true
+	})
+	for pi, po := range params[1:] {
+		if po == nil {
+			continue
+		}
+		con := fmt.Sprintf("%s rewriteMessageField parameter %s", rel, po.Name())
+		switch po.Type().Underlying().(type) {
+		case *types.Basic:
+			// a value: nothing travels back to the caller
+			c.Ok("T.pure", con, "passed by value: nothing is carried to the next message", c.PosStr(p.Fset, po.Pos()), src)
+			continue
+		}
+		var bad []string
+		ast.Inspect(rw.Body, func(n ast.Node) bool {
+			id, ok := n.(*ast.Ident)
+			if !ok || info.Uses[id] != po {
+				return true
+			}
+			par := parents[id]
+			for {
+				if pe, ok := par.(*ast.ParenExpr); ok {
+					par = parents[pe]
+					continue
+				}
+				break
+			}
+			switch t := par.(type) {
+			case *ast.IndexExpr:
+				if ast.Unparen(t.X) == ast.Expr(id) && keyOK(t.Index) {
+					return true
+				}
+				bad = append(bad, fmt.Sprintf("indexed by %s (line %d)", types.ExprString(t.Index), p.Fset.Position(t.Pos()).Line))
+			case *ast.CallExpr:
+				if f, ok := ast.Unparen(t.Fun).(*ast.Ident); ok && info.Uses[f] == info.Defs[rw.Name] && pi+1 < len(t.Args) && ast.Unparen(t.Args[pi+1]) == ast.Expr(id) {
+					return true
+				}
+				bad = append(bad, fmt.Sprintf("handed to %s (line %d)", types.ExprString(t.Fun), p.Fset.Position(t.Pos()).Line))
+			default:
+				bad = append(bad, fmt.Sprintf("used in %T (line %d)", par, p.Fset.Position(id.Pos()).Line))
+			}
+			return true
+		})
+		c.Check(len(bad) == 0, "T.pure", con, "the set of processed messages: indexed by the message's own full name only, and passed on to the recursive calls",
+			"state other than the set of processed messages is carried from one message (and file) to the next, so what is generated for a file depends on the files before it: "+strings.Join(bad, "; "), c.PosStr(p.Fset, po.Pos()), src)
+	}
 }
